@@ -71,6 +71,8 @@ type pathState struct {
 	depth    int
 	forks    int
 	nconc    map[*Term]int
+	ivals    map[string]*ival
+	cache    Model // a model of the current path condition, if known
 	monitor  *writeMonitor
 }
 
@@ -104,6 +106,27 @@ func (ps *pathState) subst(t *Term) *Term {
 func (ps *pathState) assertPC(c *Term) {
 	ps.sol.Send("(assert " + smt(c) + ")")
 	ps.learn(c)
+	ps.learnIval(c, true)
+}
+
+var CrossCheckIntervals = false
+
+// decide3 is eval3 with an optional solver cross-check (selftest).
+func (ps *pathState) decide3(c *Term) int {
+	r := ps.eval3(c)
+	if r >= 0 && CrossCheckIntervals {
+		q := c
+		if r == 1 {
+			q = mkNot(c)
+		}
+		if ps.feasible(q) != "unsat" {
+			panic(engineBug{"interval domain disagrees with the solver on " + smt(c)})
+		}
+	}
+	if r >= 0 {
+		ps.ex.addFolded()
+	}
+	return r
 }
 
 func (ps *pathState) learn(c *Term) {
@@ -142,11 +165,34 @@ func (ps *pathState) bind(name string, c *Term) {
 }
 
 func (ps *pathState) feasible(c *Term) string {
+	r, _ := ps.feasibleM(c, false)
+	return r
+}
+
+// feasibleM checks PC ∧ c; with wantModel it also returns a model when sat.
+func (ps *pathState) feasibleM(c *Term, wantModel bool) (string, Model) {
 	ps.sol.Send("(push)")
 	ps.sol.Send("(assert " + smt(c) + ")")
 	r := ps.sol.Check()
+	var m Model
+	if r == "sat" && wantModel && UseModelCache {
+		if mm, ok := ps.sol.GetValues(ps.vars); ok {
+			m = mm
+		}
+	}
 	ps.sol.Send("(pop)")
-	return r
+	return r, m
+}
+
+var UseModelCache = true
+
+// evalUnder evaluates Bool term c under model m: 1, 0 or -1 (not evaluable).
+func evalUnder(c *Term, m Model) int {
+	r := evalTerm(c, m, map[*Term]*Term{})
+	if !r.isConst() || r.w != 0 {
+		return -1
+	}
+	return int(r.val)
 }
 
 // branch decides a symbolic condition, forking when both sides are feasible.
@@ -155,12 +201,16 @@ func (ps *pathState) branch(c *Term) bool {
 	if c.isConst() {
 		return c.val != 0
 	}
+	if r := ps.decide3(c); r >= 0 {
+		return r == 1
+	}
 	if ps.pos < len(ps.prefix) {
 		d := ps.prefix[ps.pos]
 		ps.pos++
 		if d.conc {
 			panic(engineBug{"decision prefix diverged: expected branch, recorded concretisation"})
 		}
+		ps.cache = nil
 		if d.b {
 			ps.assertPC(c)
 		} else {
@@ -169,10 +219,27 @@ func (ps *pathState) branch(c *Term) bool {
 		return d.b
 	}
 	neg := mkNot(c)
-	rt := ps.feasible(c)
-	rf := "sat"
-	if rt != "unsat" {
-		rf = ps.feasible(neg)
+	var rt, rf string
+	var mt, mf Model
+	known := -1
+	if ps.cache != nil {
+		known = evalUnder(c, ps.cache)
+	}
+	switch known {
+	case 1:
+		rt, mt = "sat", ps.cache
+		rf, mf = ps.feasibleM(neg, false)
+	case 0:
+		rf, mf = "sat", ps.cache
+		rt, mt = ps.feasibleM(c, true)
+	default:
+		rt, mt = ps.feasibleM(c, true)
+		rf = "sat"
+		if rt != "unsat" {
+			rf, mf = ps.feasibleM(neg, false)
+		} else {
+			mf = ps.cache
+		}
 	}
 	var d bool
 	switch {
@@ -191,8 +258,10 @@ func (ps *pathState) branch(c *Term) bool {
 	ps.prefix = append(ps.prefix, decision{b: d})
 	ps.pos++
 	if d {
+		ps.cache = mt
 		ps.assertPC(c)
 	} else {
+		ps.cache = mf
 		ps.assertPC(neg)
 	}
 	return d
@@ -220,9 +289,11 @@ func (ps *pathState) concretize(t *Term, signed bool) int64 {
 			}
 			eq := mkEq(t, mkConst(uint64(d.v), t.w))
 			if d.b {
+				ps.cache = nil
 				ps.assertPC(eq)
 				return d.v
 			}
+			ps.cache = nil
 			ps.assertPC(mkNot(eq))
 			continue
 		}
@@ -251,6 +322,7 @@ func (ps *pathState) concretize(t *Term, signed bool) int64 {
 		}
 		ps.prefix = append(ps.prefix, decision{conc: true, b: true, v: v})
 		ps.pos++
+		ps.cache = nil
 		ps.assertPC(eq)
 		return v
 	}
@@ -324,13 +396,27 @@ func (ps *pathState) assume(cv value) {
 			}
 			return
 		}
+		switch ps.decide3(c) {
+		case 1:
+			return
+		case 0:
+			panic(pathAbort{"assume"})
+		}
 		// An assumption is a branch whose false side is discarded.  While
 		// replaying a prefix the same assumption was already found feasible
 		// under the same path condition by the run that created the prefix.
 		if ps.pos >= len(ps.prefix) {
-			if r := ps.feasible(c); r == "unsat" {
-				panic(pathAbort{"assume"})
+			if ps.cache != nil && evalUnder(c, ps.cache) == 1 {
+				// the cached model already satisfies the assumption
+			} else {
+				r, m := ps.feasibleM(c, true)
+				if r == "unsat" {
+					panic(pathAbort{"assume"})
+				}
+				ps.cache = m
 			}
+		} else {
+			ps.cache = nil
 		}
 		ps.assertPC(c)
 	default:
@@ -346,10 +432,10 @@ type PathRecord struct {
 	Events   []string
 	Reached  []string
 	Steps    int
-	Model    Model           // sample model of the path condition (if requested)
-	Vars     []varDecl       // declared nondet values, in order
-	Expected []string        // expected native event trace under Model
-	Writes   []string        // write-monitor records
+	Model    Model     // sample model of the path condition (if requested)
+	Vars     []varDecl // declared nondet values, in order
+	Expected []string  // expected native event trace under Model
+	Writes   []string  // write-monitor records
 }
 
 type Explorer struct {
@@ -366,23 +452,24 @@ type Explorer struct {
 	Deadline      time.Time
 
 	// results
-	Paths        int
-	Forks        int
-	Outcomes     map[string]int
-	Inconclusive map[string]int
-	AssertStats  map[string]map[string]int // label -> status -> count
-	Violations   []*PathRecord             // paths with a sat/concrete-false assertion, a panic or a budget overrun
-	Samples      []*PathRecord
-	ReachCount   map[string]int
-	MaxSteps     int
-	TotalSteps   int64
-	Bugs         []string
-	FuncsHit     map[string]int
-	Solvers      []*Solver
-	Truncated    bool
-	PerLabelCap  int
-	violPerLabel map[string]int
-	WriteRecs    map[string]int
+	Paths           int
+	Forks           int
+	Outcomes        map[string]int
+	Inconclusive    map[string]int
+	AssertStats     map[string]map[string]int // label -> status -> count
+	Violations      []*PathRecord             // paths with a sat/concrete-false assertion, a panic or a budget overrun
+	Samples         []*PathRecord
+	ReachCount      map[string]int
+	MaxSteps        int
+	TotalSteps      int64
+	Bugs            []string
+	FuncsHit        map[string]int
+	Solvers         []*Solver
+	Truncated       bool
+	PerLabelCap     int
+	violPerLabel    map[string]int
+	WriteRecs       map[string]int
+	IntervalDecided int
 }
 
 func newExplorer() *Explorer {
@@ -391,6 +478,12 @@ func newExplorer() *Explorer {
 		ReachCount: map[string]int{}, FuncsHit: map[string]int{}, violPerLabel: map[string]int{}, WriteRecs: map[string]int{}}
 	ex.cond = sync.NewCond(&ex.mu)
 	return ex
+}
+
+func (ex *Explorer) addFolded() {
+	ex.mu.Lock()
+	ex.IntervalDecided++
+	ex.mu.Unlock()
 }
 
 func (ex *Explorer) push(p []decision) {
